@@ -103,7 +103,10 @@ def explainLine (s : St Float) (ts : List String) (ln : String) : St Float × Op
     let armed := s.rules.any fun x => x.strategy == 1 &&
       ((x.metric == 0 && decide (x.trigger < v.load)) || (x.metric == 4 && decide (x.trigger < v.cpu)))
     let bbr := if !armed then "na" else if decide (overCapacity fA v) then "over" else "under"
-    (s', some (r ++ " ; viol=" ++ ",".intercalate viol ++ " ; bbr=" ++ bbr ++ " ; conc=" ++ toString v.conc))
+    -- the capacity comparison in exact rational arithmetic (conc > m·2·minRt/1000) next to the binary64 one
+    let exactOver := decide (1 < v.conc) && decide ((v.maxComplete * vS * v.minRt : Int) < v.conc * 1000)
+    let fx := if exactOver == decide (overCapacity fA v) then "same" else "diff"
+    (s', some (r ++ " ; viol=" ++ ",".intercalate viol ++ " ; bbr=" ++ bbr ++ " ; conc=" ++ toString v.conc ++ " ; fx=" ++ fx))
   | _, _ => (s', r)
 
 def run (mode : String) : IO Unit := do
